@@ -190,6 +190,14 @@ func finalizeQuery(q *Query) {
 			}
 		}
 	}
+	// case-insensitive comparison on literals
+	if _, used := TP.UFs["ext:strings.EqualFold"]; used {
+		for _, a := range lits {
+			for _, b := range lits {
+				extra = append(extra, Eq(UF("ext:strings.EqualFold", SBool, a, b), BoolLit(strings.EqualFold(strLitOf[a], strLitOf[b]))))
+			}
+		}
+	}
 	q.Assumes = append(extra, q.Assumes...)
 }
 
@@ -342,6 +350,7 @@ func runCheck(prop, tier string, writeBaseline, verbose bool, t0 time.Time) int 
 		return 2
 	}
 	globalSpecs = specs
+	scanROM(prog, NewExec(prog, specs))
 	cr := &checkRun{prop: prop, tier: tier, prog: prog, specs: specs, abstract: map[string]int{}, assumed: map[string]bool{}, used: map[string]bool{}, smtDir: prog.Scratch}
 	cr.timeoutMs = 10000
 	if tier == "thorough" {
